@@ -4,8 +4,6 @@ from ...util import hashobj
 
 from ..filter import Filter
 
-from .mapper import map_indices_root2child, map_indices_child2root
-
 
 class HierarchyFilterError(BaseException):
     """Used for unexpected filtering operations"""
@@ -35,11 +33,28 @@ class HierarchyFilter(Filter):
         super(HierarchyFilter, self).__init__(rtdc_ds)
         self._parent_rtdc_ds = None
         self._parent_hash = None
+        # Indices in the root parent of the events of `rtdc_ds` at the
+        # time this filter was created (`self.manual[i]` belongs to the
+        # root event `self._root_ids[i]`). The current filters of the
+        # hierarchy parents cannot be used for that, because they may
+        # already have changed when the manual filter is read.
+        self._root_ids = None
         self.update_parent(rtdc_ds.hparent)
 
     @property
     def parent_changed(self):
-        return hashobj(self._parent_rtdc_ds.filter.all) != self._parent_hash
+        return self._get_parent_hash() != self._parent_hash
+
+    def _get_parent_hash(self):
+        """Hash of the events that the parent passes on to the child"""
+        pds = self._parent_rtdc_ds
+        tohash = [pds.filter.all]
+        if isinstance(pds.filter, HierarchyFilter):
+            # The parent is a hierarchy child itself. Its events change
+            # when a dataset further up changes its filters, even if
+            # `pds.filter.all` happens to look the same afterwards.
+            tohash.append(pds.filter._root_ids)
+        return hashobj(tohash)
 
     def apply_manual_indices(self, rtdc_ds, manual_indices):
         """Write to `self.manual`
@@ -63,8 +78,7 @@ class HierarchyFilter(Filter):
             raise HierarchyFilterError(msg)
         else:
             self._man_root_ids = list(manual_indices)
-            cidx = map_indices_root2child(child=rtdc_ds,
-                                          root_indices=manual_indices)
+            cidx = np.where(np.isin(self._root_ids, manual_indices))[0]
             if len(cidx):
                 self.manual[cidx] = False
 
@@ -87,54 +101,36 @@ class HierarchyFilter(Filter):
         which have been manually excluded before and are now
         hidden because a hierarchy parent filtered it out.
 
-        If `self.parent_changed` is `True`, i.e. the parent applied
-        a filter and the child did not yet hear about this, then
-        nothing is computed and `self._man_root_ids` as-is.  This
-        is important, because the size of the current filter would
-        not match the size of the filtered events of the parent and
-        thus index-mapping would not work.
+        The root indices of the events in `self.manual` were stored
+        when this filter was created. Thus, this also works when
+        `self.parent_changed` is `True`, i.e. a parent applied a filter
+        and the child did not yet hear about this.
         """
-        if self.parent_changed:
-            # ignore
-            pass
-        elif np.all(self.manual):
+        if np.all(self.manual):
             # Do not do anything and remember the events we manually
             # excluded in case the parent reinserts them.
             pass
         else:
             # indices from boolean array
-            pbool = map_indices_child2root(
-                child=rtdc_ds,
-                child_indices=np.where(~self.manual)[0]).tolist()
-            # retrieve all indices that are currently not visible
-            # previous indices
-            pold = self._man_root_ids
-            # all indices previously selected either via
-            # - self.manual or
-            # - self.apply_manual_indices
-            pall = sorted(list(set(pbool + pold)))
-            # visible indices (only available child indices are returned)
-            pvis_c = map_indices_root2child(child=rtdc_ds,
-                                            root_indices=pall).tolist()
-            # map visible child indices back to root indices
-            pvis_p = map_indices_child2root(child=rtdc_ds,
-                                            child_indices=pvis_c).tolist()
-            # hidden indices
-            phid = list(set(pall) - set(pvis_p))
-            # Why not set `all_idx` to `pall`:
-            # - pbool is considered to be correct
-            # - pold contains hidden indices, but also might contain
-            #   excess indices from before, i.e. if self.apply_manual_indices
-            #   is called, self.manual is also updated. If however,
-            #   self.manual is updated, self._man_root_ids are not updated.
-            #   Thus, we trust pbool (self.manual) and only use pold
-            #   (self._man_root_ids) to determine hidden indices.
-            all_idx = list(set(pbool + phid))
-            self._man_root_ids = sorted(all_idx)
+            pbool = self._root_ids[~self.manual].tolist()
+            # Hidden indices: previously excluded events that are
+            # currently not part of the child. Note that we trust
+            # `self.manual` for all events that are part of the child
+            # (`self._man_root_ids` is not updated when the user edits
+            # `self.manual`).
+            phid = set(self._man_root_ids) - set(self._root_ids.tolist())
+            self._man_root_ids = sorted(set(pbool) | phid)
         return self._man_root_ids
 
     def update_parent(self, parent_rtdc_ds):
         # hold reference to rtdc_ds parent
         # (not to its filter, because that is reinstantiated)
         self._parent_rtdc_ds = parent_rtdc_ds
-        self._parent_hash = hashobj(self._parent_rtdc_ds.filter.all)
+        self._parent_hash = self._get_parent_hash()
+        # root indices of the events the parent passes on to the child
+        pfilter = parent_rtdc_ds.filter
+        if isinstance(pfilter, HierarchyFilter):
+            parent_root_ids = pfilter._root_ids
+        else:
+            parent_root_ids = np.arange(len(parent_rtdc_ds))
+        self._root_ids = parent_root_ids[pfilter.all]
